@@ -380,7 +380,11 @@ pub fn run(tier: &str) -> Result<Report, String> {
     std_assumptions(&mut rep);
     let nets = core_nets(3)?;
     let (m, pool): (usize, usize) = if tier == "quick" { (3, 2) } else { (4, 5) };
-    for b in nets.iter().filter(|b| b.cols.len() > 1) {
+    // the multi-colour core networks, and the multi-colour networks that are unusual as data: variable names like the spare
+    // variables', several explicit function symbols whose alphabetical order differs from the order of first use (g before f),
+    // variables declared in a non-lexicographic order
+    let extra: Vec<_> = name_nets(3)?.into_iter().chain(decl_nets(3)?).collect();
+    for b in nets.iter().chain(extra.iter()).filter(|b| b.cols.len() > 1) {
         crate::sem::note_network(&mut rep, b);
         let ctx = NetCtx::new(b.clone(), Labels::default(), "none");
         let w = Witnesses::new(b)?;
